@@ -1,27 +1,144 @@
 theories/Base/Sx.vo theories/Base/Sx.glob theories/Base/Sx.v.beautified theories/Base/Sx.required_vo: theories/Base/Sx.v 
 theories/Base/Sx.vio: theories/Base/Sx.v 
 theories/Base/Sx.vos theories/Base/Sx.vok theories/Base/Sx.required_vos: theories/Base/Sx.v 
+theories/Gen/C02HashSpec.vo theories/Gen/C02HashSpec.glob theories/Gen/C02HashSpec.v.beautified theories/Gen/C02HashSpec.required_vo: theories/Gen/C02HashSpec.v theories/Base/Sx.vo theories/Model/KeyEnc.vo
+theories/Gen/C02HashSpec.vio: theories/Gen/C02HashSpec.v theories/Base/Sx.vio theories/Model/KeyEnc.vio
+theories/Gen/C02HashSpec.vos theories/Gen/C02HashSpec.vok theories/Gen/C02HashSpec.required_vos: theories/Gen/C02HashSpec.v theories/Base/Sx.vos theories/Model/KeyEnc.vos
+theories/Gen/C02HashSpec_ok.vo theories/Gen/C02HashSpec_ok.glob theories/Gen/C02HashSpec_ok.v.beautified theories/Gen/C02HashSpec_ok.required_vo: theories/Gen/C02HashSpec_ok.v theories/Base/Sx.vo theories/Model/KeyEnc.vo theories/Gen/C02HashSpec.vo
+theories/Gen/C02HashSpec_ok.vio: theories/Gen/C02HashSpec_ok.v theories/Base/Sx.vio theories/Model/KeyEnc.vio theories/Gen/C02HashSpec.vio
+theories/Gen/C02HashSpec_ok.vos theories/Gen/C02HashSpec_ok.vok theories/Gen/C02HashSpec_ok.required_vos: theories/Gen/C02HashSpec_ok.v theories/Base/Sx.vos theories/Model/KeyEnc.vos theories/Gen/C02HashSpec.vos
+theories/Gen/C04Consts.vo theories/Gen/C04Consts.glob theories/Gen/C04Consts.v.beautified theories/Gen/C04Consts.required_vo: theories/Gen/C04Consts.v 
+theories/Gen/C04Consts.vio: theories/Gen/C04Consts.v 
+theories/Gen/C04Consts.vos theories/Gen/C04Consts.vok theories/Gen/C04Consts.required_vos: theories/Gen/C04Consts.v 
 theories/Gen/C07Consts.vo theories/Gen/C07Consts.glob theories/Gen/C07Consts.v.beautified theories/Gen/C07Consts.required_vo: theories/Gen/C07Consts.v 
 theories/Gen/C07Consts.vio: theories/Gen/C07Consts.v 
 theories/Gen/C07Consts.vos theories/Gen/C07Consts.vok theories/Gen/C07Consts.required_vos: theories/Gen/C07Consts.v 
 theories/Gen/C07Consts_ok.vo theories/Gen/C07Consts_ok.glob theories/Gen/C07Consts_ok.v.beautified theories/Gen/C07Consts_ok.required_vo: theories/Gen/C07Consts_ok.v theories/Model/Lru.vo theories/Gen/C07Consts.vo
 theories/Gen/C07Consts_ok.vio: theories/Gen/C07Consts_ok.v theories/Model/Lru.vio theories/Gen/C07Consts.vio
 theories/Gen/C07Consts_ok.vos theories/Gen/C07Consts_ok.vok theories/Gen/C07Consts_ok.required_vos: theories/Gen/C07Consts_ok.v theories/Model/Lru.vos theories/Gen/C07Consts.vos
+theories/Gen/C18Consts.vo theories/Gen/C18Consts.glob theories/Gen/C18Consts.v.beautified theories/Gen/C18Consts.required_vo: theories/Gen/C18Consts.v 
+theories/Gen/C18Consts.vio: theories/Gen/C18Consts.v 
+theories/Gen/C18Consts.vos theories/Gen/C18Consts.vok theories/Gen/C18Consts.required_vos: theories/Gen/C18Consts.v 
+theories/Model/ArgTypes.vo theories/Model/ArgTypes.glob theories/Model/ArgTypes.v.beautified theories/Model/ArgTypes.required_vo: theories/Model/ArgTypes.v 
+theories/Model/ArgTypes.vio: theories/Model/ArgTypes.v 
+theories/Model/ArgTypes.vos theories/Model/ArgTypes.vok theories/Model/ArgTypes.required_vos: theories/Model/ArgTypes.v 
+theories/Model/Client.vo theories/Model/Client.glob theories/Model/Client.v.beautified theories/Model/Client.required_vo: theories/Model/Client.v 
+theories/Model/Client.vio: theories/Model/Client.v 
+theories/Model/Client.vos theories/Model/Client.vok theories/Model/Client.required_vos: theories/Model/Client.v 
+theories/Model/CompilerCache.vo theories/Model/CompilerCache.glob theories/Model/CompilerCache.v.beautified theories/Model/CompilerCache.required_vo: theories/Model/CompilerCache.v 
+theories/Model/CompilerCache.vio: theories/Model/CompilerCache.v 
+theories/Model/CompilerCache.vos theories/Model/CompilerCache.vok theories/Model/CompilerCache.required_vos: theories/Model/CompilerCache.v 
+theories/Model/Crc32.vo theories/Model/Crc32.glob theories/Model/Crc32.v.beautified theories/Model/Crc32.required_vo: theories/Model/Crc32.v 
+theories/Model/Crc32.vio: theories/Model/Crc32.v 
+theories/Model/Crc32.vos theories/Model/Crc32.vok theories/Model/Crc32.required_vos: theories/Model/Crc32.v 
+theories/Model/DiskCache.vo theories/Model/DiskCache.glob theories/Model/DiskCache.v.beautified theories/Model/DiskCache.required_vo: theories/Model/DiskCache.v theories/Base/Sx.vo theories/Model/Lru.vo
+theories/Model/DiskCache.vio: theories/Model/DiskCache.v theories/Base/Sx.vio theories/Model/Lru.vio
+theories/Model/DiskCache.vos theories/Model/DiskCache.vok theories/Model/DiskCache.required_vos: theories/Model/DiskCache.v theories/Base/Sx.vos theories/Model/Lru.vos
+theories/Model/DistArgs.vo theories/Model/DistArgs.glob theories/Model/DistArgs.v.beautified theories/Model/DistArgs.required_vo: theories/Model/DistArgs.v theories/Base/Sx.vo
+theories/Model/DistArgs.vio: theories/Model/DistArgs.v theories/Base/Sx.vio
+theories/Model/DistArgs.vos theories/Model/DistArgs.vok theories/Model/DistArgs.required_vos: theories/Model/DistArgs.v theories/Base/Sx.vos
+theories/Model/DistFallback.vo theories/Model/DistFallback.glob theories/Model/DistFallback.v.beautified theories/Model/DistFallback.required_vo: theories/Model/DistFallback.v theories/Model/DistStatus.vo
+theories/Model/DistFallback.vio: theories/Model/DistFallback.v theories/Model/DistStatus.vio
+theories/Model/DistFallback.vos theories/Model/DistFallback.vok theories/Model/DistFallback.required_vos: theories/Model/DistFallback.v theories/Model/DistStatus.vos
+theories/Model/DistStatus.vo theories/Model/DistStatus.glob theories/Model/DistStatus.v.beautified theories/Model/DistStatus.required_vo: theories/Model/DistStatus.v 
+theories/Model/DistStatus.vio: theories/Model/DistStatus.v 
+theories/Model/DistStatus.vos theories/Model/DistStatus.vok theories/Model/DistStatus.required_vos: theories/Model/DistStatus.v 
+theories/Model/Extract.vo theories/Model/Extract.glob theories/Model/Extract.v.beautified theories/Model/Extract.required_vo: theories/Model/Extract.v theories/Base/Sx.vo theories/Model/FsModel.vo
+theories/Model/Extract.vio: theories/Model/Extract.v theories/Base/Sx.vio theories/Model/FsModel.vio
+theories/Model/Extract.vos theories/Model/Extract.vok theories/Model/Extract.required_vos: theories/Model/Extract.v theories/Base/Sx.vos theories/Model/FsModel.vos
+theories/Model/FsModel.vo theories/Model/FsModel.glob theories/Model/FsModel.v.beautified theories/Model/FsModel.required_vo: theories/Model/FsModel.v theories/Base/Sx.vo
+theories/Model/FsModel.vio: theories/Model/FsModel.v theories/Base/Sx.vio
+theories/Model/FsModel.vos theories/Model/FsModel.vok theories/Model/FsModel.required_vos: theories/Model/FsModel.v theories/Base/Sx.vos
+theories/Model/HitModel.vo theories/Model/HitModel.glob theories/Model/HitModel.v.beautified theories/Model/HitModel.required_vo: theories/Model/HitModel.v theories/Base/Sx.vo theories/Model/Lru.vo
+theories/Model/HitModel.vio: theories/Model/HitModel.v theories/Base/Sx.vio theories/Model/Lru.vio
+theories/Model/HitModel.vos theories/Model/HitModel.vok theories/Model/HitModel.required_vos: theories/Model/HitModel.v theories/Base/Sx.vos theories/Model/Lru.vos
+theories/Model/Jobserver.vo theories/Model/Jobserver.glob theories/Model/Jobserver.v.beautified theories/Model/Jobserver.required_vo: theories/Model/Jobserver.v 
+theories/Model/Jobserver.vio: theories/Model/Jobserver.v 
+theories/Model/Jobserver.vos theories/Model/Jobserver.vok theories/Model/Jobserver.required_vos: theories/Model/Jobserver.v 
+theories/Model/KeyEnc.vo theories/Model/KeyEnc.glob theories/Model/KeyEnc.v.beautified theories/Model/KeyEnc.required_vo: theories/Model/KeyEnc.v theories/Base/Sx.vo
+theories/Model/KeyEnc.vio: theories/Model/KeyEnc.v theories/Base/Sx.vio
+theories/Model/KeyEnc.vos theories/Model/KeyEnc.vok theories/Model/KeyEnc.required_vos: theories/Model/KeyEnc.v theories/Base/Sx.vos
 theories/Model/Lru.vo theories/Model/Lru.glob theories/Model/Lru.v.beautified theories/Model/Lru.required_vo: theories/Model/Lru.v theories/Base/Sx.vo
 theories/Model/Lru.vio: theories/Model/Lru.v theories/Base/Sx.vio
 theories/Model/Lru.vos theories/Model/Lru.vok theories/Model/Lru.required_vos: theories/Model/Lru.v theories/Base/Sx.vos
+theories/Model/PpCache.vo theories/Model/PpCache.glob theories/Model/PpCache.v.beautified theories/Model/PpCache.required_vo: theories/Model/PpCache.v theories/Base/Sx.vo theories/Gen/C04Consts.vo theories/Model/TimeMacro.vo
+theories/Model/PpCache.vio: theories/Model/PpCache.v theories/Base/Sx.vio theories/Gen/C04Consts.vio theories/Model/TimeMacro.vio
+theories/Model/PpCache.vos theories/Model/PpCache.vok theories/Model/PpCache.required_vos: theories/Model/PpCache.v theories/Base/Sx.vos theories/Gen/C04Consts.vos theories/Model/TimeMacro.vos
+theories/Model/RoCache.vo theories/Model/RoCache.glob theories/Model/RoCache.v.beautified theories/Model/RoCache.required_vo: theories/Model/RoCache.v theories/Base/Sx.vo theories/Model/Lru.vo
+theories/Model/RoCache.vio: theories/Model/RoCache.v theories/Base/Sx.vio theories/Model/Lru.vio
+theories/Model/RoCache.vos theories/Model/RoCache.vok theories/Model/RoCache.required_vos: theories/Model/RoCache.v theories/Base/Sx.vos theories/Model/Lru.vos
+theories/Model/Scheduler.vo theories/Model/Scheduler.glob theories/Model/Scheduler.v.beautified theories/Model/Scheduler.required_vo: theories/Model/Scheduler.v theories/Base/Sx.vo theories/Gen/C18Consts.vo
+theories/Model/Scheduler.vio: theories/Model/Scheduler.v theories/Base/Sx.vio theories/Gen/C18Consts.vio
+theories/Model/Scheduler.vos theories/Model/Scheduler.vok theories/Model/Scheduler.required_vos: theories/Model/Scheduler.v theories/Base/Sx.vos theories/Gen/C18Consts.vos
+theories/Model/ServerLife.vo theories/Model/ServerLife.glob theories/Model/ServerLife.v.beautified theories/Model/ServerLife.required_vo: theories/Model/ServerLife.v 
+theories/Model/ServerLife.vio: theories/Model/ServerLife.v 
+theories/Model/ServerLife.vos theories/Model/ServerLife.vok theories/Model/ServerLife.required_vos: theories/Model/ServerLife.v 
+theories/Model/Startup.vo theories/Model/Startup.glob theories/Model/Startup.v.beautified theories/Model/Startup.required_vo: theories/Model/Startup.v 
+theories/Model/Startup.vio: theories/Model/Startup.v 
+theories/Model/Startup.vos theories/Model/Startup.vok theories/Model/Startup.required_vos: theories/Model/Startup.v 
 theories/Model/TcCache.vo theories/Model/TcCache.glob theories/Model/TcCache.v.beautified theories/Model/TcCache.required_vo: theories/Model/TcCache.v theories/Base/Sx.vo theories/Model/Lru.vo
 theories/Model/TcCache.vio: theories/Model/TcCache.v theories/Base/Sx.vio theories/Model/Lru.vio
 theories/Model/TcCache.vos theories/Model/TcCache.vok theories/Model/TcCache.required_vos: theories/Model/TcCache.v theories/Base/Sx.vos theories/Model/Lru.vos
+theories/Model/TimeMacro.vo theories/Model/TimeMacro.glob theories/Model/TimeMacro.v.beautified theories/Model/TimeMacro.required_vo: theories/Model/TimeMacro.v theories/Base/Sx.vo theories/Gen/C04Consts.vo
+theories/Model/TimeMacro.vio: theories/Model/TimeMacro.v theories/Base/Sx.vio theories/Gen/C04Consts.vio
+theories/Model/TimeMacro.vos theories/Model/TimeMacro.vok theories/Model/TimeMacro.required_vos: theories/Model/TimeMacro.v theories/Base/Sx.vos theories/Gen/C04Consts.vos
+theories/Model/Zip.vo theories/Model/Zip.glob theories/Model/Zip.v.beautified theories/Model/Zip.required_vo: theories/Model/Zip.v theories/Model/Crc32.vo
+theories/Model/Zip.vio: theories/Model/Zip.v theories/Model/Crc32.vio
+theories/Model/Zip.vos theories/Model/Zip.vok theories/Model/Zip.required_vos: theories/Model/Zip.v theories/Model/Crc32.vos
 theories/Proofs/Lru.vo theories/Proofs/Lru.glob theories/Proofs/Lru.v.beautified theories/Proofs/Lru.required_vo: theories/Proofs/Lru.v theories/Base/Sx.vo theories/Model/Lru.vo
 theories/Proofs/Lru.vio: theories/Proofs/Lru.v theories/Base/Sx.vio theories/Model/Lru.vio
 theories/Proofs/Lru.vos theories/Proofs/Lru.vok theories/Proofs/Lru.required_vos: theories/Proofs/Lru.v theories/Base/Sx.vos theories/Model/Lru.vos
+theories/Proofs/Scheduler.vo theories/Proofs/Scheduler.glob theories/Proofs/Scheduler.v.beautified theories/Proofs/Scheduler.required_vo: theories/Proofs/Scheduler.v theories/Base/Sx.vo theories/Gen/C18Consts.vo theories/Model/Scheduler.vo
+theories/Proofs/Scheduler.vio: theories/Proofs/Scheduler.v theories/Base/Sx.vio theories/Gen/C18Consts.vio theories/Model/Scheduler.vio
+theories/Proofs/Scheduler.vos theories/Proofs/Scheduler.vok theories/Proofs/Scheduler.required_vos: theories/Proofs/Scheduler.v theories/Base/Sx.vos theories/Gen/C18Consts.vos theories/Model/Scheduler.vos
+theories/Proofs/TcCache.vo theories/Proofs/TcCache.glob theories/Proofs/TcCache.v.beautified theories/Proofs/TcCache.required_vo: theories/Proofs/TcCache.v theories/Base/Sx.vo theories/Model/Lru.vo theories/Model/TcCache.vo
+theories/Proofs/TcCache.vio: theories/Proofs/TcCache.v theories/Base/Sx.vio theories/Model/Lru.vio theories/Model/TcCache.vio
+theories/Proofs/TcCache.vos theories/Proofs/TcCache.vok theories/Proofs/TcCache.required_vos: theories/Proofs/TcCache.v theories/Base/Sx.vos theories/Model/Lru.vos theories/Model/TcCache.vos
+theories/Properties/C02.vo theories/Properties/C02.glob theories/Properties/C02.v.beautified theories/Properties/C02.required_vo: theories/Properties/C02.v theories/Model/KeyEnc.vo theories/Gen/C02HashSpec.vo
+theories/Properties/C02.vio: theories/Properties/C02.v theories/Model/KeyEnc.vio theories/Gen/C02HashSpec.vio
+theories/Properties/C02.vos theories/Properties/C02.vok theories/Properties/C02.required_vos: theories/Properties/C02.v theories/Model/KeyEnc.vos theories/Gen/C02HashSpec.vos
+theories/Properties/C06.vo theories/Properties/C06.glob theories/Properties/C06.v.beautified theories/Properties/C06.required_vo: theories/Properties/C06.v theories/Model/DiskCache.vo
+theories/Properties/C06.vio: theories/Properties/C06.v theories/Model/DiskCache.vio
+theories/Properties/C06.vos theories/Properties/C06.vok theories/Properties/C06.required_vos: theories/Properties/C06.v theories/Model/DiskCache.vos
 theories/Properties/C07.vo theories/Properties/C07.glob theories/Properties/C07.v.beautified theories/Properties/C07.required_vo: theories/Properties/C07.v 
 theories/Properties/C07.vio: theories/Properties/C07.v 
 theories/Properties/C07.vos theories/Properties/C07.vok theories/Properties/C07.required_vos: theories/Properties/C07.v 
+theories/Properties/C17.vo theories/Properties/C17.glob theories/Properties/C17.v.beautified theories/Properties/C17.required_vo: theories/Properties/C17.v theories/Base/Sx.vo theories/Model/Lru.vo theories/Model/TcCache.vo
+theories/Properties/C17.vio: theories/Properties/C17.v theories/Base/Sx.vio theories/Model/Lru.vio theories/Model/TcCache.vio
+theories/Properties/C17.vos theories/Properties/C17.vok theories/Properties/C17.required_vos: theories/Properties/C17.v theories/Base/Sx.vos theories/Model/Lru.vos theories/Model/TcCache.vos
+theories/Properties/C18.vo theories/Properties/C18.glob theories/Properties/C18.v.beautified theories/Properties/C18.required_vo: theories/Properties/C18.v theories/Model/Scheduler.vo
+theories/Properties/C18.vio: theories/Properties/C18.v theories/Model/Scheduler.vio
+theories/Properties/C18.vos theories/Properties/C18.vok theories/Properties/C18.required_vos: theories/Properties/C18.v theories/Model/Scheduler.vos
+theories/Run/C02.vo theories/Run/C02.glob theories/Run/C02.v.beautified theories/Run/C02.required_vo: theories/Run/C02.v theories/Base/Sx.vo theories/Model/KeyEnc.vo theories/Gen/C02HashSpec.vo
+theories/Run/C02.vio: theories/Run/C02.v theories/Base/Sx.vio theories/Model/KeyEnc.vio theories/Gen/C02HashSpec.vio
+theories/Run/C02.vos theories/Run/C02.vok theories/Run/C02.required_vos: theories/Run/C02.v theories/Base/Sx.vos theories/Model/KeyEnc.vos theories/Gen/C02HashSpec.vos
+theories/Run/C04.vo theories/Run/C04.glob theories/Run/C04.v.beautified theories/Run/C04.required_vo: theories/Run/C04.v theories/Base/Sx.vo theories/Gen/C04Consts.vo theories/Model/TimeMacro.vo theories/Model/PpCache.vo
+theories/Run/C04.vio: theories/Run/C04.v theories/Base/Sx.vio theories/Gen/C04Consts.vio theories/Model/TimeMacro.vio theories/Model/PpCache.vio
+theories/Run/C04.vos theories/Run/C04.vok theories/Run/C04.required_vos: theories/Run/C04.v theories/Base/Sx.vos theories/Gen/C04Consts.vos theories/Model/TimeMacro.vos theories/Model/PpCache.vos
+theories/Run/C06.vo theories/Run/C06.glob theories/Run/C06.v.beautified theories/Run/C06.required_vo: theories/Run/C06.v theories/Base/Sx.vo theories/Model/Lru.vo theories/Model/DiskCache.vo
+theories/Run/C06.vio: theories/Run/C06.v theories/Base/Sx.vio theories/Model/Lru.vio theories/Model/DiskCache.vio
+theories/Run/C06.vos theories/Run/C06.vok theories/Run/C06.required_vos: theories/Run/C06.v theories/Base/Sx.vos theories/Model/Lru.vos theories/Model/DiskCache.vos
 theories/Run/C07.vo theories/Run/C07.glob theories/Run/C07.v.beautified theories/Run/C07.required_vo: theories/Run/C07.v theories/Base/Sx.vo theories/Model/Lru.vo
 theories/Run/C07.vio: theories/Run/C07.v theories/Base/Sx.vio theories/Model/Lru.vio
 theories/Run/C07.vos theories/Run/C07.vok theories/Run/C07.required_vos: theories/Run/C07.v theories/Base/Sx.vos theories/Model/Lru.vos
+theories/Run/C08.vo theories/Run/C08.glob theories/Run/C08.v.beautified theories/Run/C08.required_vo: theories/Run/C08.v theories/Base/Sx.vo theories/Model/Crc32.vo theories/Model/Zip.vo
+theories/Run/C08.vio: theories/Run/C08.v theories/Base/Sx.vio theories/Model/Crc32.vio theories/Model/Zip.vio
+theories/Run/C08.vos theories/Run/C08.vok theories/Run/C08.required_vos: theories/Run/C08.v theories/Base/Sx.vos theories/Model/Crc32.vos theories/Model/Zip.vos
+theories/Run/C11.vo theories/Run/C11.glob theories/Run/C11.v.beautified theories/Run/C11.required_vo: theories/Run/C11.v theories/Base/Sx.vo theories/Model/Client.vo
+theories/Run/C11.vio: theories/Run/C11.v theories/Base/Sx.vio theories/Model/Client.vio
+theories/Run/C11.vos theories/Run/C11.vok theories/Run/C11.required_vos: theories/Run/C11.v theories/Base/Sx.vos theories/Model/Client.vos
+theories/Run/C12.vo theories/Run/C12.glob theories/Run/C12.v.beautified theories/Run/C12.required_vo: theories/Run/C12.v theories/Base/Sx.vo theories/Model/CompilerCache.vo
+theories/Run/C12.vio: theories/Run/C12.v theories/Base/Sx.vio theories/Model/CompilerCache.vio
+theories/Run/C12.vos theories/Run/C12.vok theories/Run/C12.required_vos: theories/Run/C12.v theories/Base/Sx.vos theories/Model/CompilerCache.vos
+theories/Run/C16.vo theories/Run/C16.glob theories/Run/C16.v.beautified theories/Run/C16.required_vo: theories/Run/C16.v theories/Base/Sx.vo theories/Model/Jobserver.vo
+theories/Run/C16.vio: theories/Run/C16.v theories/Base/Sx.vio theories/Model/Jobserver.vio
+theories/Run/C16.vos theories/Run/C16.vok theories/Run/C16.required_vos: theories/Run/C16.v theories/Base/Sx.vos theories/Model/Jobserver.vos
 theories/Run/C17.vo theories/Run/C17.glob theories/Run/C17.v.beautified theories/Run/C17.required_vo: theories/Run/C17.v theories/Base/Sx.vo theories/Model/Lru.vo theories/Model/TcCache.vo
 theories/Run/C17.vio: theories/Run/C17.v theories/Base/Sx.vio theories/Model/Lru.vio theories/Model/TcCache.vio
 theories/Run/C17.vos theories/Run/C17.vok theories/Run/C17.required_vos: theories/Run/C17.v theories/Base/Sx.vos theories/Model/Lru.vos theories/Model/TcCache.vos
+theories/Run/C18.vo theories/Run/C18.glob theories/Run/C18.v.beautified theories/Run/C18.required_vo: theories/Run/C18.v theories/Base/Sx.vo theories/Gen/C18Consts.vo theories/Model/Scheduler.vo
+theories/Run/C18.vio: theories/Run/C18.v theories/Base/Sx.vio theories/Gen/C18Consts.vio theories/Model/Scheduler.vio
+theories/Run/C18.vos theories/Run/C18.vok theories/Run/C18.required_vos: theories/Run/C18.v theories/Base/Sx.vos theories/Gen/C18Consts.vos theories/Model/Scheduler.vos
+theories/Run/C20.vo theories/Run/C20.glob theories/Run/C20.v.beautified theories/Run/C20.required_vo: theories/Run/C20.v theories/Base/Sx.vo theories/Model/Startup.vo theories/Model/ServerLife.vo
+theories/Run/C20.vio: theories/Run/C20.v theories/Base/Sx.vio theories/Model/Startup.vio theories/Model/ServerLife.vio
+theories/Run/C20.vos theories/Run/C20.vok theories/Run/C20.required_vos: theories/Run/C20.v theories/Base/Sx.vos theories/Model/Startup.vos theories/Model/ServerLife.vos
